@@ -156,3 +156,35 @@ Proof.
     intros b Hb. apply (wh_min_le l m Em). eapply wh_remove_first_in.
     destruct (wh_expire_spec f _ _ _ _ E) as (_ & B & _). apply B. exact Hb.
 Qed.
+
+(* ---------- cancel: an arming that is cancelled leaves the wheel (as long as counters are unique in it) ---------- *)
+Lemma wh_remove_first_unique l : forall m, In m l -> NoDup (map w_ctr l) ->
+  ~ In (w_ctr m) (map w_ctr (wh_remove_first l (w_ctr m) (w_dl m))).
+Proof.
+  induction l as [|e t IH]; intros m Hin Hnd; cbn; [tauto|].
+  inversion Hnd as [|x xs Hnot Hnd']; subst.
+  destruct Hin as [->|Hin].
+  - rewrite N.eqb_refl, !Z.eqb_refl. cbn. exact Hnot.
+  - destruct (N.eqb_spec (w_ctr e) (w_ctr m)) as [E|E].
+    + exfalso. apply Hnot. rewrite E. apply in_map. exact Hin.
+    + cbn. intros [H|H]; [contradiction|]. exact (IH m Hin Hnd' H).
+Qed.
+Lemma wh_cancel_removes w c : NoDup (map w_ctr (wh_heap w)) -> ~ In c (map w_ctr (wh_heap (wh_cancel w c))).
+Proof.
+  intros Hnd. unfold wh_cancel. destruct (wh_min (wh_heap w)) as [m|] eqn:Em.
+  - destruct (N.eqb_spec (w_ctr m) c) as [<-|Hne]; cbn.
+    + apply wh_remove_first_unique; [apply wh_min_in; exact Em|exact Hnd].
+    + rewrite in_map_iff. intros [e [He Hin]]. apply filter_In in Hin as [_ Hf]. subst c. rewrite N.eqb_refl in Hf. discriminate.
+  - rewrite (wh_min_none _ Em). cbn. tauto.
+Qed.
+(* and it only removes: every other entry stays *)
+Lemma wh_cancel_keeps w c e : In e (wh_heap w) -> w_ctr e <> c -> In e (wh_heap (wh_cancel w c)).
+Proof.
+  intros Hin Hne. unfold wh_cancel. destruct (wh_min (wh_heap w)) as [m|] eqn:Em; [|exact Hin].
+  destruct (N.eqb_spec (w_ctr m) c) as [<-|Hne2]; cbn.
+  - clear Em. induction (wh_heap w) as [|x t IH]; cbn in *; [tauto|].
+    destruct Hin as [->|Hin].
+    + destruct (N.eqb_spec (w_ctr e) (w_ctr m)); [contradiction|]. cbn. left. reflexivity.
+    + destruct ((w_ctr x =? w_ctr m) && (w_dl x =? w_dl x)%Z && (w_dl x =? w_dl m)%Z); [exact Hin|right; apply IH; exact Hin].
+  - apply filter_In. split; [exact Hin|]. destruct (N.eqb_spec (w_ctr e) c); [contradiction|reflexivity].
+Qed.
